@@ -94,7 +94,7 @@ def gen_emit_case(rng):
         return argv, stdin
     if k < 0.75:
         schema = objgen.rand_schema(rng, ascii_only=False)
-        v = objgen.rand_vars(rng, ascii_only=False, bound=2 ** 64)
+        v = objgen.rand_vars(rng, ascii_only=False, bound=2 ** 64, wide=True)
         v["custom"] = rng.choice([objgen.rand_custom(rng, False), {"a": [1, [2, [3, {"b": None}]]], "f": 2.5, "neg": -7, "z": -0.0, "e": {}, "l": [],
                                                                       "big": 2 ** 64 - 1, "s": 'q"uo\\te\nnl\ttab\r' + "é日本😀"}, {}])
         if rng.random() < 0.35:
